@@ -224,8 +224,9 @@ def run(repo: Repo, rep: Report, tier: str) -> None:
 
     parse_time_count_rule(repo, rep, "C10.R8")
     operand_conversion_rule(repo, rep, "C10.R9")
+    from .memo import memo_rule
 
-
+    memo_rule(repo, rep, "C10.R10")
 def unary_marking_rule(repo: Repo, rep: Report, rid: str, max_len: int) -> None:
     rep.rule(rid, f"unary-minus marking, bounded-exhaustive: Expression._mark_unary_minus interpreted on every token list up to length {max_len} over "
                   "{-, ~, (, ), number, +, <<} marks a '-' as unary exactly when it starts the list or follows '(' or an operator (a '-' just marked "
